@@ -51,6 +51,7 @@ Definition K_RESET := 40.
 Definition K_HPMCAP := 41. (* [HPM.1 version, capabilities, upgrade, selftest, rollback, inaccessibility timeout, components] *)
 Definition K_HPMSTAT := 42. (* [command in progress, last completion code] *)
 Definition K_SELFTEST := 43. (* [result 1, result 2] *)
+Definition K_COMPPROP := 44. (* a = component, b = property selector: property data *)
 Definition K_PORT := 50.      (* a = interface, b = channel: [link info byte 0..3, state]; no link: [] *)
 Definition K_SIGCLASS := 51.  (* a = interface, b = channel: [signaling class] *)
 Definition K_PWRCHST := 52.   (* a = power channel: [status: b0 present, b1 MP enabled, b2 MP overcurrent, b3 ENABLE#, b4 PWR enabled, b5 PWR overcurrent, b6 PWR_ON] *)
@@ -96,6 +97,9 @@ Definition default (k : key) : list N :=
   else if kind =? K_HPMCAP then [1; 0x0f; 10; 20; 30; 40; 0x05]
   else if kind =? K_HPMSTAT then [0; 0]
   else if kind =? K_SELFTEST then [0x55; 0]
+  else if kind =? K_COMPPROP then (if b =? 0 then [0x0e] else if b =? 1 then [1; 0x23; 0; 0; 0; 1]
+                                  else if b =? 2 then [66; 79; 79; 84; 0; 0; 0; 0; 0; 0; 0; 0]
+                                  else if b =? 3 then [1; 0x22; 0; 0; 0; 0] else [1; 0x24; 0; 0; 0; 2])
   else if kind =? K_SIGCLASS then [0]
   else if kind =? K_PWRCHST then [1]
   else if kind =? K_PWRCHCTL then [0; 0; 0]
@@ -294,6 +298,10 @@ Definition h_picmg (s : store) (cmd lun : N) (d : list N) : store * reply :=
   else if cmd =? 0x2e then ok s (0 :: get s (K_HPMCAP, 0, 0))     (* HPM.1 Get Target Upgrade Capabilities *)
   else if cmd =? 0x34 then ok s (0 :: get s (K_HPMSTAT, 0, 0))    (* HPM.1 Get Upgrade Status *)
   else if cmd =? 0x36 then ok s (0 :: get s (K_SELFTEST, 0, 0))   (* HPM.1 Query Selftest Results *)
+  else if cmd =? 0x2f then                              (* HPM.1 Get Component Properties *)
+    if negb (longer d 3) then cc s 0xc7 else
+    if 7 <? at_ d 1 then cc s 0x82 else if 4 <? at_ d 2 then cc s 0x83 else
+    ok s (0 :: get s (K_COMPPROP, at_ d 1, at_ d 2))
   else if cmd =? 0x37 then ok s (0 :: get s (K_ROLLBACK, 0, 0))   (* HPM.1 Query Rollback Status *)
   else if cmd =? 0x38 then ok (put s (K_ROLLBACKREQ, 0, 0) [1]) [0]   (* HPM.1 Initiate Manual Rollback *)
   else if cmd =? 0x0e then                              (* Set Port State: link info (4 bytes), state *)
